@@ -13,7 +13,7 @@ INSERT_BACK = {'emplace_back', 'push_back'}
 
 OBS, ACT, CNT = 'm_observers', 'm_activeSubscriptions', 'm_subscriptionCounter'
 REMOVALS = ('remove_if', 'erase', 'remove', 'erase_after', 'erase_if', 'pop_front', 'pop_back', 'clear')
-INSERTS = INSERT_FRONT | INSERT_BACK | {'insert', 'emplace', 'insert_after', 'emplace_after'}
+INSERTS = INSERT_FRONT | INSERT_BACK | {'insert', 'emplace', 'insert_after', 'emplace_after', 'emplace_hint', 'try_emplace', 'insert_or_assign'}
 
 
 class ObsDomain(EvDomain):
